@@ -34,6 +34,9 @@ BUILT = {
  'C20': dict(cat='exploration', tech='end-to-end oracle on executions: exact-rank dense target -> sample_tt -> svd_incomplete, compared with the dense target; conditioning of the sampled blocks computed from target and sample set only',
    text='Well-formedness, ranks <= cap and max|Z - T| <= 1e-7 max|T| for every generated target of TT-rank rho sampled for expected rank m >= rho with all mode sizes >= m.',
    note='Sampled blocks with sigma_rho/sigma_1 < 1e-5 are not judged ("almost all").', ref='§4 C20'),
+ 'C09': dict(cat='exploration', tech='sanitizer-style monitors on every exported name via an API table: byte snapshots of all reachable argument arrays and container structure, numpy.shares_memory between result and arguments, read-only trap pass; four memory layouts per call shape',
+   text='All 107 exported names are executed in every documented argument combination of the table with C / Fortran / strided / shared-buffer layouts; arguments must be byte-identical afterwards, no returned floating-point array may share memory with an argument, and no in-place write may hit a read-only argument; the documented exceptions (in-place flag, info/cache, pass-through helpers) are modelled explicitly.',
+   note='Undocumented parameters are not driven; getter (numba), the draft func_diff_matrix_apply(cheb) and als(use_stab) raise and are recorded as not drivable; index vectors handed back are recorded, not judged.', ref='§4 C09'),
  'C01': dict(cat='exploration', tech='shadow-value runtime monitor: random expression programs evaluated by the real functions, every node and observer compared with a longdouble / exact-integer dense shadow',
    text='Oracle on executions of the real add/sub/mul/outer/copy and all evaluation routines over generated programs and TT families; held on the K programs listed in the evidence, never "verified".',
    note='Trusted: NumPy longdouble arithmetic as dense reference; tolerance 10(sum ranks+d)2^-52*absbound; exact Python ints for integer cores.', ref='§4 C01'),
